@@ -10,3 +10,11 @@ print(r.stdout.strip()[-200:])
 if r.returncode != 0:
     print(r.stderr[-500:])
     sys.exit(1)
+# pre-build the replay runner (scratch crate with a path dependency on /repo); checks rebuild it incrementally on every run
+sys.path.insert(0, HERE)
+try:
+    from vlib import replayrun
+    exe, err = replayrun.build()
+    print('replay runner:', exe or ('build failed: ' + err[-300:]))
+except Exception as e:
+    print('replay runner not prebuilt:', e)
